@@ -12,6 +12,9 @@ from .core import AnalysisError, Loc, Report, norm
 from .flow import Ctx, FlowWalker, State
 from .handlers import FnRef, HandlerFacts, concrete_handlers, implementations
 from .inifront import to_snake_case
+from .guards import path_conditions
+from .normalize import canon
+from .resolve import Resolver
 from .pyfront import ClassInfo, Program, body_without_docstring, dotted, param_names, self_attr
 
 API = ["extract_active_global_state", "get_event_handlers_to_run", "extract_from_global_state", "push_event",
@@ -42,6 +45,7 @@ class RunLoopClient:
         self.seen_events: Dict[str, int] = {}
         self.sequence: List[str] = []
         self._reported: Set[Tuple[str, str]] = set()
+        self._resolvers: Dict[int, Resolver] = {}
         base = prog.class_named("Mediator")
         self.mediating_attr = self._dict_attr(base, "mediate_")
         self.arguments_attr = self._dict_attr(base, "get_arguments_")
@@ -63,7 +67,13 @@ class RunLoopClient:
                 out.append(("API", f.attr, node))
             if isinstance(f, ast.Attribute) and f.attr == "send_out_state":
                 out.append(("API", "OUT_STATE", node))
-            # self._mediating_methods.get(handler, default)()  or  self._mediating_methods[handler]()
+            # self._mediating_methods.get(handler, default)()  or  self._mediating_methods[handler]()  -- also when the looked-up
+            # method was bound to a local first
+            if isinstance(f, ast.Name) and ctx.fn is not None:
+                key = id(ctx.fn.fn)
+                if key not in self._resolvers:
+                    self._resolvers[key] = Resolver(ctx.fn.fn)
+                f = self._resolvers[key].res(f)
             if isinstance(f, ast.Call) and isinstance(f.func, ast.Attribute) and f.func.attr == "get" \
                     and self_attr(f.func.value) == self.mediating_attr:
                 out.append(("API", "MEDIATE", node))
@@ -140,15 +150,17 @@ def check_argument_methods(prog: Program, rep: Report) -> None:
         if fn is None:
             rep.ob("R17.3-fresh-global-state", None, loc, name, "method not found")
             continue
+        fn = canon(prog, med, fn)   # private helpers inlined: a write moved into a helper is still this method's write
+        R = Resolver(fn)
         writes = [n for n in ast.walk(fn) if isinstance(n, ast.Call) and isinstance(n.func, ast.Attribute)
                   and n.func.attr == "write"]
         for wcall in writes:
-            arg = wcall.args[1] if len(wcall.args) > 1 else None
+            arg = R.res(wcall.args[1]) if len(wcall.args) > 1 else None
             ok = isinstance(arg, ast.Call) and isinstance(arg.func, ast.Attribute) and arg.func.attr == "extract_global_state"
             rep.ob("R17.3-fresh-global-state", ok, Loc(file, wcall.lineno, f"Mediator.{name}"), wcall,
                    "the output handler must receive a global state extracted after the commit (a fresh "
                    "extract_global_state() call in the mediating method)")
-            a0 = wcall.args[0] if wcall.args else None
+            a0 = R.res(wcall.args[0]) if wcall.args else None
             ok0 = isinstance(a0, ast.Attribute) and a0.attr == "output_handler"
             rep.ob("R17.3-output-handler-of-event", ok0, Loc(file, wcall.lineno, f"Mediator.{name}"), wcall,
                    "the sample must go to the output handler named by the committed event handler")
@@ -156,14 +168,28 @@ def check_argument_methods(prog: Program, rep: Report) -> None:
             rep.ob("R17.3-sample-written", len(writes) >= 1, loc, name, "the sampling mediating method writes nothing")
         else:
             body = body_without_docstring(fn)
-            ok = bool(body) and isinstance(body[-1], ast.Raise) and "EndOfRun" in norm(body[-1])
+
+            def every_path_raises(stmts: List[ast.stmt]) -> bool:
+                for i, st in enumerate(stmts):
+                    if isinstance(st, ast.Raise):
+                        return st.exc is not None and "EndOfRun" in norm(st.exc)
+                    if isinstance(st, ast.Return):
+                        return False
+                    if isinstance(st, ast.If):
+                        rest = stmts[i + 1:]
+                        return every_path_raises(list(st.body) + rest) and every_path_raises(list(st.orelse) + rest)
+                    if isinstance(st, (ast.For, ast.While, ast.Try, ast.With)):
+                        if any(isinstance(x, (ast.Return, ast.Break)) for x in ast.walk(st)):
+                            return False
+                return False
+            ok = every_path_raises(body)
             rep.ob("R17.3-end-of-run-raises", ok, loc, body[-1] if body else name,
                    "the end-of-run mediating method must raise EndOfRun on every path, after the optional final write")
-            for st in body[:-1]:
-                if isinstance(st, ast.If):
-                    t = norm(st.test)
-                    rep.ob("R17.3-final-write-guard", "output_handler is not None" in t, Loc(file, st.lineno, f"Mediator.{name}"),
-                           st.test, "the final write may only be skipped when no output handler is configured")
+            for wcall in writes:
+                conds = path_conditions(body, wcall) or []
+                ok = all(c.endswith(".output_handler is not None") for c in conds)
+                rep.ob("R17.3-final-write-guard", ok, Loc(file, wcall.lineno, f"Mediator.{name}"),
+                       " and ".join(conds) or "unconditional", "the final write may only be skipped when no output handler is configured")
 
 
 def base_names(prog: Program, cls: ClassInfo) -> Set[str]:
